@@ -302,27 +302,43 @@ class PythonTranslator(ASTTranslator):
         node.priority = 1
         return node.id
     def postJoinedStr(self, node):
-        return "f%r" % self.joined_str_body(node)
+        body, exprs = self.joined_str_body(node)
+        # only literal text is escaped; replacement fields are source text already
+        quote = '"' if "'" in exprs and '"' not in exprs else "'"
+        return 'f' + quote + body + quote
     def joined_str_body(self, node):
         result = []
+        exprs = []
+        def literal(s):
+            s = s.replace('{', '{{').replace('}', '}}')
+            return repr('"' + s)[2:-1].replace('"', '\\"')  # valid inside both kinds of quotes
         for item in node.values:
             if isinstance(item, ast.Constant):
                 assert isinstance(item.value, str)
-                result.append(item.value.replace('{', '{{').replace('}', '}}'))
+                result.append(literal(item.value))
             elif not PY38 and isinstance(item, ast.Str):  # Python 3.7
-                result.append(item.s.replace('{', '{{').replace('}', '}}'))
+                result.append(literal(item.s))
             elif isinstance(item, ast.FormattedValue):
-                src = '{' + item.value.src
+                src = item.value.src
+                exprs.append(src)
+                if src.startswith('{'): src = ' ' + src  # '{{' would be an escaped brace
+                src = '{' + src
                 if item.conversion != -1:
                     src += '!' + chr(item.conversion)
                 if item.format_spec is not None:
-                    src += ':' + self.joined_str_body(item.format_spec)
+                    spec = item.format_spec
+                    if not isinstance(spec, ast.JoinedStr):  # the decompiler leaves a bare constant or field
+                        spec = ast.JoinedStr(values=[spec])
+                    spec_body, spec_exprs = self.joined_str_body(spec)
+                    src += ':' + spec_body
+                    exprs.extend(spec_exprs)
                 result.append(src + '}')
             else:
                 assert False
-        return ''.join(result)
+        return ''.join(result), ''.join(exprs)
     def postFormattedValue(self, node):
-        return node.value.src
+        # a replacement field on its own (the decompiler yields one for f'{x}', f'{x!r}', f'{x:>3}')
+        return self.postJoinedStr(ast.JoinedStr(values=[node]))
 
 
 nonexternalizable_types = (ast.keyword, ast.Starred, ast.Slice, ast.List, ast.Tuple)
